@@ -443,9 +443,25 @@ static void families(unsigned long long& unit)
 					calls	 = 0;
 					double r = rev ? Find_Root(fn, b, a, 1e-3) : Find_Root(fn, a, b, 1e-3);
 					st.executions++;
-					if(!mc::same_bits(r, z) || calls != 2) mc::violation("families", "families|zero_at_end|z=" + mc::dec(z) + ",other=" + mc::dec(other) + ",which=" + std::to_string(which) + "|end_zero_not_returned", "returned " + mc::dec(r) + " after " + std::to_string(calls) + " evaluations", "zero end z=" + mc::hexd(z));
+					if(!mc::same_bits(r, z)) mc::violation("families", "families|zero_at_end|z=" + mc::dec(z) + ",other=" + mc::dec(other) + ",which=" + std::to_string(which) + "|end_zero_not_returned", "returned " + mc::dec(r) + " after " + std::to_string(calls) + " evaluations", "zero end z=" + mc::hexd(z));
+					if(calls != 2) mc::count("zero_end_found_after_more_than_two_evaluations", 1);	// not promised either way
 				}
 			}
+	// both ends are zeros: one of them is returned (either is "a bracket end that is itself a zero")
+	for(auto ab : std::vector<std::pair<double, double>>{{0, 1}, {-1, 1}, {2, 5}, {-3.5, 1e6}})
+	{
+		if(!mc::mine(unit++)) continue;
+		double a = ab.first, b = ab.second;
+		std::function<double(double)> fn = [&](double x) { return (x - a) * (x - b); };
+		for(int rev = 0; rev < 2; rev++)
+		{
+			double r = 0;
+			st.executions++;
+			std::string key = "families|both_ends_zero|a=" + mc::dec(a) + ",b=" + mc::dec(b) + ",rev=" + std::to_string(rev);
+			if(mc::library_exits([&]() { r = rev ? Find_Root(fn, b, a, 1e-6) : Find_Root(fn, a, b, 1e-6); })) { mc::violation("families", key + "|valid_bracket_terminated_process", "both ends are zeros of the function and the call ended the process", "both ends zero"); continue; }
+			if(!(r == a || r == b)) mc::violation("families", key + "|end_zero_not_returned", "returned " + mc::dec(r), "both ends zero");
+		}
+	}
 	mc::count("family_executions", st.executions);
 	mc::count("evaluations", st.executions);
 	mc::count("transitions", st.queries);
